@@ -310,6 +310,15 @@ func (x *extractor) valueMeaning(v ssa.Value) string {
 					return fld + ".UnixMicro"
 				}
 			}
+			// a small module helper that hands one argument through (func microsOf(t time.Time) int64
+			// { return t.UnixMicro() })
+			if g := u.Common().StaticCallee(); g != nil && inModule(g) && g.Blocks != nil && len(g.Params) == 1 && len(u.Call.Args) == 1 {
+				if suffix, ok := passesThroughMethod(g.Params[0], 0); ok {
+					if fld := x.msgField(u.Call.Args[0]); fld != "" {
+						return fld + suffix
+					}
+				}
+			}
 			return "call:" + nm
 		case *ssa.UnOp:
 			if f, base := loadedField(u); f != nil {
@@ -366,6 +375,18 @@ func (x *extractor) sinks(v ssa.Value) []string {
 					walk(u, via+".UnixMicro")
 				case "(time.Time).UTC":
 					walk(u, via)
+				default:
+					// a small module helper that hands its argument through (for instance
+					// func timeOf(micros int64) time.Time { return time.UnixMicro(micros).UTC() })
+					if g := u.Common().StaticCallee(); g != nil && inModule(g) && g.Blocks != nil {
+						for i, a := range u.Common().Args {
+							if a == v && i < len(g.Params) {
+								if suffix, ok := passesThrough(g.Params[i], 0); ok {
+									walk(u, via+suffix)
+								}
+							}
+						}
+					}
 				}
 			case *ssa.Store:
 				if u.Val == v {
@@ -781,4 +802,73 @@ func (p *Prog) evalUnder(fn *ssa.Function, idx int, decide func(cond ssa.Value) 
 		return lin{bad: "no reachable return"}, false
 	}
 	return *res, res.bad == ""
+}
+
+// passesThrough: the value reaches a return of its function through conversions, time.UnixMicro and
+// (time.Time).UTC only; the suffix names what was applied on the way.
+func passesThrough(v ssa.Value, d int) (string, bool) {
+	if d > 6 || v.Referrers() == nil {
+		return "", false
+	}
+	for _, r := range *v.Referrers() {
+		switch u := r.(type) {
+		case *ssa.Return:
+			return "", true
+		case *ssa.Convert:
+			if s, ok := passesThrough(u, d+1); ok {
+				return s, true
+			}
+		case *ssa.ChangeType:
+			if s, ok := passesThrough(u, d+1); ok {
+				return s, true
+			}
+		case *ssa.Call:
+			switch calleeName(u.Common()) {
+			case "time.UnixMicro":
+				if s, ok := passesThrough(u, d+1); ok {
+					return ".UnixMicro" + s, true
+				}
+			case "(time.Time).UTC":
+				if s, ok := passesThrough(u, d+1); ok {
+					return s, true
+				}
+			}
+		}
+	}
+	return "", false
+}
+
+// passesThroughMethod: like passesThrough, for a time.Time argument that is returned as UnixMicro().
+func passesThroughMethod(v ssa.Value, d int) (string, bool) {
+	if d > 6 || v.Referrers() == nil {
+		return "", false
+	}
+	for _, r := range *v.Referrers() {
+		switch u := r.(type) {
+		case *ssa.Return:
+			return "", true
+		case *ssa.Convert:
+			if s, ok := passesThroughMethod(u, d+1); ok {
+				return s, true
+			}
+		case *ssa.Call:
+			if calleeName(u.Common()) == "(time.Time).UnixMicro" {
+				if s, ok := passesThroughMethod(u, d+1); ok {
+					return ".UnixMicro" + s, true
+				}
+			}
+		case *ssa.Store:
+			// a by-value receiver is spilled before the method call
+			if al, ok := u.Addr.(*ssa.Alloc); ok && u.Val == v {
+				for _, r2 := range *al.Referrers() {
+					if ld, ok := r2.(*ssa.UnOp); ok {
+						if s, ok := passesThroughMethod(ld, d+1); ok {
+							return s, true
+						}
+					}
+				}
+			}
+		}
+	}
+	return "", false
 }
